@@ -17,7 +17,61 @@ static const Shape kShapes[] = {
     {"1 0 0  -1 0 0  0 1 0  0 -1 0  0 0 1  0 0 -1", "0 2 4  2 1 4  1 3 4  3 0 4  2 0 5  1 2 5  3 1 5  0 3 5", 6},
 };
 
-static std::string gen_xml(Rng& r, int* nmesh_out, int* ntex_out, int* nmuscle_out, const std::set<int>& mdrop, bool collide = false) {
+// ---- kinematic structure around the assets: frames (nested, every way of writing an orientation), static bodies (what
+// fusestatic fuses), default classes, cameras and lights.  Everything here is resolved by the compiler into positions and
+// quaternions of the elements' parents, so a compile that is not repeatable on the same spec shows in the model bytes.
+static std::string orient(Rng& q) {
+  switch (q.below(7)) {
+    case 0: return "";
+    case 1: return " euler=\"" + f(q.uniform(-1.5, 1.5)) + " " + f(q.uniform(-1.5, 1.5)) + " " + f(q.uniform(-1.5, 1.5)) + "\"";
+    case 2: return " axisangle=\"" + f(q.uniform(-1, 1)) + " " + f(q.uniform(-1, 1)) + " " + f(q.uniform(0.2, 1)) + " " + f(q.uniform(-3, 3)) + "\"";
+    case 3: return " xyaxes=\"1 " + f(q.uniform(-0.5, 0.5)) + " " + f(q.uniform(-0.5, 0.5)) + " " + f(q.uniform(-0.5, 0.5)) + " 1 " + f(q.uniform(-0.5, 0.5)) + "\"";
+    case 4: return " zaxis=\"" + f(q.uniform(-1, 1)) + " " + f(q.uniform(-1, 1)) + " " + f(q.uniform(0.2, 1)) + "\"";
+    case 5: return " quat=\"" + f(q.uniform(0.2, 1)) + " " + f(q.uniform(-1, 1)) + " " + f(q.uniform(-1, 1)) + " " + f(q.uniform(-1, 1)) + "\"";
+    default: return " euler=\"0 0 " + f(q.uniform(-3, 3)) + "\"";
+  }
+}
+static std::string pos3(Rng& q, double s) { return f(q.uniform(-s, s)) + " " + f(q.uniform(-s, s)) + " " + f(q.uniform(-s, s)); }
+static std::string small_geom(Rng& q, int& id, bool cls) {
+  std::string g = "<geom name=\"xg" + std::to_string(id++) + "\" contype=\"0\" conaffinity=\"0\"";
+  if (cls && q.chance(0.4)) g += " class=\"cB\"";
+  int t = q.below(4);
+  if (t == 0) g += " type=\"sphere\" size=\"" + f(q.uniform(0.02, 0.06)) + "\" pos=\"" + pos3(q, 0.2) + "\"";
+  else if (t == 1) g += " type=\"box\" size=\"" + f(q.uniform(0.02, 0.06)) + " 0.03 0.02\" pos=\"" + pos3(q, 0.2) + "\"" + orient(q);
+  else if (t == 2) g += " type=\"capsule\" size=\"" + f(q.uniform(0.01, 0.03)) + "\" fromto=\"" + pos3(q, 0.2) + " " + f(q.uniform(0.25, 0.4)) + " 0 0.1\"";
+  else g += " type=\"ellipsoid\" size=\"0.03 0.02 " + f(q.uniform(0.01, 0.04)) + "\" pos=\"" + pos3(q, 0.2) + "\"" + orient(q);
+  return g + "/>";
+}
+static void gen_frame(Rng& q, std::string& out, int depth, int& id, bool cls);
+static void gen_static_body(Rng& q, std::string& out, int depth, int& id, bool cls) {
+  out += "<body name=\"xb" + std::to_string(id++) + "\" pos=\"" + pos3(q, 0.3) + "\"" + orient(q) + (cls && q.chance(0.3) ? " childclass=\"cA\"" : "") + ">";
+  if (q.chance(0.2)) out += "<inertial pos=\"" + pos3(q, 0.05) + "\" mass=\"" + f(q.uniform(0.1, 1)) + "\" diaginertia=\"0.01 0.02 0.015\"/>";
+  out += small_geom(q, id, cls);
+  if (q.chance(0.3)) out += "<site name=\"xs" + std::to_string(id++) + "\" pos=\"" + pos3(q, 0.1) + "\"" + orient(q) + "/>";
+  if (q.chance(0.2)) out += "<light name=\"xl" + std::to_string(id++) + "\" pos=\"" + pos3(q, 0.5) + "\" dir=\"" + f(q.uniform(-1, 1)) + " " + f(q.uniform(-1, 1)) + " -1\"/>";
+  if (q.chance(0.2)) out += "<camera name=\"xc" + std::to_string(id++) + "\" pos=\"" + pos3(q, 0.5) + "\"" + orient(q) + "/>";
+  if (depth < 2 && q.chance(0.4)) gen_static_body(q, out, depth + 1, id, cls);
+  if (depth < 2 && q.chance(0.3)) gen_frame(q, out, depth + 1, id, cls);
+  out += "</body>";
+}
+static void gen_frame(Rng& q, std::string& out, int depth, int& id, bool cls) {
+  out += "<frame" + (q.chance(0.5) ? " name=\"xf" + std::to_string(id++) + "\"" : std::string()) + " pos=\"" + pos3(q, 0.3) + "\"" + orient(q) + (cls && q.chance(0.3) ? " childclass=\"cA\"" : "") + ">";
+  int n = q.range(1, 3);
+  for (int k = 0; k < n; k++) {
+    switch (q.below(7)) {
+      case 0: case 1: out += small_geom(q, id, cls); break;
+      case 2: out += "<site name=\"xs" + std::to_string(id++) + "\" pos=\"" + pos3(q, 0.1) + "\"" + orient(q) + "/>"; break;
+      case 3: gen_static_body(q, out, depth + 1, id, cls); break;
+      case 4: out += "<camera name=\"xc" + std::to_string(id++) + "\" pos=\"" + pos3(q, 0.5) + "\"" + orient(q) + "/>"; break;
+      case 5: out += "<light name=\"xl" + std::to_string(id++) + "\" pos=\"" + pos3(q, 0.5) + "\" dir=\"" + f(q.uniform(-1, 1)) + " " + f(q.uniform(-1, 1)) + " -1\"/>"; break;
+      default: if (depth < 2) gen_frame(q, out, depth + 1, id, cls); else out += small_geom(q, id, cls); break;
+    }
+  }
+  out += "</frame>";
+}
+
+static std::string gen_xml(Rng& r, int* nmesh_out, int* ntex_out, int* nmuscle_out, const std::set<int>& mdrop, bool collide = false, bool* fuse_out = nullptr,
+                           int* nstruct_out = nullptr) {
   int elem = 0;
   auto keep = [&]() { return !mdrop.count(elem++); };
   std::string asset, geoms, x;
@@ -103,8 +157,20 @@ static std::string gen_xml(Rng& r, int* nmesh_out, int* ntex_out, int* nmuscle_o
     } else { r.next(); acts += "<muscle name=\"m" + std::to_string(i) + "\" joint=\"j" + std::to_string(j) + "\"/>"; }
     nmuscle++;
   }
-  x = "<mujoco model=\"c33\"><compiler angle=\"radian\"><lengthrange inttotal=\"0.6\" interval=\"0.2\" timestep=\"0.02\" tolrange=\"100\"/></compiler><option timestep=\"0.005\"/>";
-  x += "<asset>" + asset + "</asset><worldbody><site name=\"sw\" pos=\"0.2 0 1.2\"/><body name=\"meshes\" pos=\"0 1 0.5\"><freejoint/>" + geoms + "<geom size=\"0.05\"/></body>" + bodies + "</worldbody>";
+  // structure (own generator, seeded from the case's stream after everything else so that the asset part of a case is unchanged)
+  Rng qs(r.next());
+  bool fuse = qs.chance(0.15), cls = qs.chance(0.5);
+  std::string xworld, xmesh, dflt;
+  int xid = 0, nstruct = 0;
+  for (int i = 0, n = qs.below(4); i < n; i++) { if (!keep()) { Rng skip(qs.next()); continue; } Rng q(qs.next()); gen_frame(q, xworld, 0, xid, cls); nstruct++; }
+  for (int i = 0, n = qs.below(3); i < n; i++) { if (!keep()) { Rng skip(qs.next()); continue; } Rng q(qs.next()); gen_static_body(q, xworld, 0, xid, cls); nstruct++; }
+  for (int i = 0, n = qs.below(3); i < n; i++) { if (!keep()) { Rng skip(qs.next()); continue; } Rng q(qs.next()); if (q.chance(0.5)) gen_frame(q, xmesh, 1, xid, cls); else gen_static_body(q, xmesh, 1, xid, cls); nstruct++; }
+  if (qs.chance(0.3)) xworld += "<camera name=\"xtrack\" pos=\"0 -2 1\" mode=\"targetbody\" target=\"l0\"/>";
+  if (cls) dflt = "<default><default class=\"cA\"><geom rgba=\"0.2 0.6 0.3 1\" friction=\"0.7 0.01 0.001\"/><site size=\"0.02\" rgba=\"1 0 0 1\"/><default class=\"cB\"><geom density=\"700\" solref=\"0.01 0.8\"/></default></default></default>";
+  if (fuse_out) *fuse_out = fuse;
+  if (nstruct_out) *nstruct_out = nstruct;
+  x = "<mujoco model=\"c33\"><compiler angle=\"radian\"" + std::string(fuse ? " fusestatic=\"true\"" : "") + "><lengthrange inttotal=\"0.6\" interval=\"0.2\" timestep=\"0.02\" tolrange=\"100\"/></compiler><option timestep=\"0.005\"/>";
+  x += dflt + "<asset>" + asset + "</asset><worldbody><site name=\"sw\" pos=\"0.2 0 1.2\"/><body name=\"meshes\" pos=\"0 1 0.5\"><freejoint/>" + geoms + "<geom size=\"0.05\"/>" + xmesh + "</body>" + bodies + xworld + "</worldbody>";
   if (!tendons.empty()) x += "<tendon>" + tendons + "</tendon>";
   if (!acts.empty()) x += "<actuator>" + acts + "</actuator>";
   x += "</mujoco>";
